@@ -105,10 +105,14 @@ type H struct {
 	okCount  int
 	faultOK  bool
 	advanced bool
+	// idle-timeout bookkeeping: every request presenting an id counts as a use of it (the most permissive reading),
+	// so a gap longer than the idle timeout between two presentations ends the session whatever the store did
+	lastSeen map[string]time.Time
+	idleDead map[string]int
 }
 
 func newH(c *sim.Case, w *sim.World, nb int, mons ...monitor) *H {
-	h := &H{c: c, w: w, issued: map[string]*sess{}, mons: mons}
+	h := &H{c: c, w: w, issued: map[string]*sess{}, mons: mons, lastSeen: map[string]time.Time{}, idleDead: map[string]int{}}
 	for i := 0; i < nb; i++ {
 		h.bs = append(h.bs, w.NewBrowser(fmt.Sprintf("%c", 'a'+i)))
 	}
@@ -189,6 +193,16 @@ func (h *H) fresh(ts tokSet, now time.Time) bool {
 func (h *H) do(o *op, b *sim.Browser, req sim.Req) *step {
 	s := &step{N: len(h.steps), Op: o, B: b, Req: req, Kind: h.kindOf(req), Now: h.w.Clock.Now()}
 	s.Presented = cookiesNamed(req.Headers["cookie"], h.w.CookieName())
+	for _, id := range s.Presented {
+		if last, ok := h.lastSeen[id]; ok {
+			if idle := h.w.Opts.Idle; idle > 0 && s.Now.After(last.Add(idle+time.Second)) {
+				if _, dead := h.idleDead[id]; !dead {
+					h.idleDead[id] = s.N
+				}
+			}
+			h.lastSeen[id] = s.Now
+		}
+	}
 	if b != nil {
 		s.R = b.Send(req)
 	} else {
@@ -199,6 +213,11 @@ func (h *H) do(o *op, b *sim.Browser, req sim.Req) *step {
 	h.steps = append(h.steps, s)
 	h.c.Logf("#%d %s %s %s cookie=%q -> %v%s", s.N, opName(o), s.Kind, req.Path, short(req.Headers["cookie"], 90), s.R, faultNote(s.R))
 	h.updateModel(s)
+	if s.NewID != "" {
+		if _, ok := h.lastSeen[s.NewID]; !ok {
+			h.lastSeen[s.NewID] = s.Now
+		}
+	}
 	if s.R.OK {
 		h.okCount++
 	}
@@ -367,6 +386,10 @@ func (h *H) justified(s *step) (bool, string) {
 			why = fmt.Sprintf("session %s exceeded its absolute timeout of %v (created %v, now %v)", short(id, 12), abs, ss.Created.Format("15:04:05"), s.Now.Format("15:04:05"))
 			continue
 		}
+		if at, dead := h.idleDead[id]; dead {
+			why = fmt.Sprintf("session %s was unused for longer than the idle timeout of %v before step #%d", short(id, 12), h.w.Opts.Idle, at)
+			continue
+		}
 		if len(ss.Toks) == 0 {
 			if ss.DeadAt >= 0 {
 				why = fmt.Sprintf("session %s ended at step #%d", short(id, 12), ss.DeadAt)
@@ -447,7 +470,15 @@ func (h *H) exec(o *op) {
 		h.do(o, b, b.ReqFor("/logout"))
 	case "advance":
 		d := o.D
-		if ss := h.cur(o.B); ss != nil && len(ss.Toks) > 0 && o.Rel != "abs" {
+		if o.Rel == "idle" {
+			// to a drawn offset from the idle limit of the browser's session (a plain advance when there is none)
+			if d < 0 {
+				d = -d
+			}
+			if last, ok := h.lastSeen[h.bs[o.B].SID()]; ok && h.w.Opts.Idle > 0 {
+				d = last.Add(h.w.Opts.Idle).Sub(h.w.Clock.Now()) + o.D
+			}
+		} else if ss := h.cur(o.B); ss != nil && len(ss.Toks) > 0 && o.Rel != "abs" {
 			base := ss.Toks[0].IDExp
 			if o.Rel == "atexp" && !ss.Toks[0].ATExp.IsZero() {
 				base = ss.Toks[0].ATExp
@@ -584,6 +615,14 @@ func editCallback(cb, edit string) string {
 		return raw("code=" + code + ";state=" + st)
 	case "pct-name":
 		return raw("code=" + code + "&%73tate=" + st)
+	case "code-injection":
+		return raw("code=" + code + "%26code_verifier%3Dinjected-verifier-injected-verifier-injected-000%26redirect_uri%3Dhttps%253A%252F%252Fevil.test%252Fcb&state=" + st)
+	case "code-plus":
+		return raw("code=" + code + "%2Bx%3Dy&state=" + st)
+	case "code-space":
+		return raw("code=" + code + "%20x&state=" + st)
+	case "code-pct":
+		return raw("code=" + code + "%2541&state=" + st)
 	}
 	return cb
 }
@@ -605,7 +644,7 @@ func flipCase(s string) string {
 
 var callbackEdits = []string{"verbatim", "state-case-flip", "state-prefix", "state-suffix", "state-empty", "state-absent",
 	"state-dup-good-first", "state-dup-bad-first", "State-cased-name", "code-absent", "code-dup", "code-unknown",
-	"reordered", "extra-params", "semicolon", "pct-name"}
+	"reordered", "extra-params", "semicolon", "pct-name", "code-injection", "code-plus", "code-space", "code-pct"}
 
 // ---------------------------------------------------------------------------------------------
 // generators for operations
@@ -625,7 +664,10 @@ type opProfile struct {
 }
 
 func genAdvance(c *sim.Case, o *op) {
-	switch sim.Weighted(c, "adv.kind", 3, 4, 3, 1) {
+	switch sim.Weighted(c, "adv.kind", 3, 4, 3, 1, 2) {
+	case 4:
+		o.Rel = "idle"
+		o.D = []time.Duration{-5 * time.Second, -2 * time.Second, 2 * time.Second, 5 * time.Second, time.Minute}[sim.Pick(c, "adv.idle", 5)]
 	case 0:
 		o.Rel = "abs"
 		o.D = time.Duration(1+sim.Pick(c, "adv.s", 120)) * time.Second
